@@ -18,7 +18,7 @@ RULE = ("polylines / surfaces / tetrahedral volumes from the zoos incl. disconne
         "MST weights one/length/custom dict/Attribute with ties; both traversal orders; non-trivial = non-empty exclusion set (or avoid_boundary) on a "
         "graph with a cycle, or a disconnected mesh; distinct = (mesh, tree kind, root, exclusions) hash")
 REQUIRED = {"tree": 2000, "bfs_depth": 300, "mst": 100, "forest": 100, "traverse": 300}
-CASE_TIMEOUT = {"quick": 60.0, "thorough": 600.0}
+CASE_TIMEOUT = {"quick": 30.0, "thorough": 600.0}
 ASSUMPTIONS = ["exclusion sets are sets of edge ids (vertex / face trees) or face ids (cell trees) of the mesh's own numbering",
                "MST ties: only the total weight is compared"]
 
